@@ -1,5 +1,5 @@
 #!/bin/bash
-# usage: tools/confirm_seed.sh <Cxx> [name]  — confirms an agent-made seeded defect in its scratch worktree, runs the check against it in /repo,
+# usage: tools/confirm_seed.sh <Cxx> [name] ["cargo test args of an in-tree demonstration (demo.diff)"]  — confirms an agent-made seeded defect in its scratch worktree, runs the check against it in /repo,
 # records it under /verif/seeded/<name>/ and cleans the worktree up.
 set -u
 P=$1; NAME=${2:-$P}; WT=/tmp/wt_$NAME; SO=/tmp/seed_out/$NAME; OUT=/verif/seeded/$NAME
@@ -9,7 +9,14 @@ cd $WT || exit 1
 git diff > /tmp/cur_$NAME.diff
 if ! diff -q /tmp/cur_$NAME.diff $SO/patch.diff >/dev/null; then echo "NOTE: worktree diff differs from patch.diff; re-applying"; git checkout -- . ; git apply $SO/patch.diff || exit 1; fi
 DEMO=$SO/demo
-run_demo() { if [ -f $DEMO/run_demo.sh ]; then (cd $DEMO && WT=$WT timeout 1800 sh ./run_demo.sh > /tmp/demo_$NAME.out 2>&1; rc=$?; tail -15 /tmp/demo_$NAME.out; echo "DEMO-EXIT=$rc"); else (cd $DEMO && timeout 1200 cargo test --offline 2>&1 | tail -15); fi; }
+DEMOARGS=${3:-}
+# untracked files an agent left in the worktree (e.g. its demonstration test) must not take part in the suite run
+git ls-files --others --exclude-standard | while read f; do rm -f "$f"; done
+run_demo() {
+  if [ -f $SO/demo.diff ] && [ ! -d $DEMO ]; then
+    (cd $WT && git apply $SO/demo.diff && { timeout 2400 cargo test --offline $DEMOARGS 2>&1 | tail -25; }; git apply -R $SO/demo.diff)
+  elif [ -f $DEMO/run_demo.sh ]; then (cd $DEMO && WT=$WT timeout 1800 sh ./run_demo.sh > /tmp/demo_$NAME.out 2>&1; rc=$?; tail -15 /tmp/demo_$NAME.out; echo "DEMO-EXIT=$rc")
+  else (cd $DEMO && timeout 1200 cargo test --offline 2>&1 | tail -15); fi; }
 echo "== demo WITH patch (expect failure)"; run_demo > $OUT/demo_with.log; grep -E "test result|FAILED|failed|DEMO-EXIT" $OUT/demo_with.log | head -5
 echo "== full suite WITH patch"; timeout 3000 cargo test --workspace --no-fail-fast --offline > /tmp/suite_$NAME.log 2>&1
 grep -E "^test .*\.\.\. FAILED" /tmp/suite_$NAME.log | sort > $OUT/suite_failed.txt
@@ -17,7 +24,8 @@ grep -c "\.\.\. ok" /tmp/suite_$NAME.log; cat $OUT/suite_failed.txt | wc -l; cat
 rm -f fixtures/snapshots/output-*.txt
 echo "== demo WITHOUT patch (expect pass)"; git apply -R $SO/patch.diff; run_demo > $OUT/demo_without.log; grep -E "test result|FAILED|failed|DEMO-EXIT" $OUT/demo_without.log | head -5; git apply $SO/patch.diff
 cp $SO/patch.diff $OUT/patch.diff; cp $SO/notes.md $OUT/notes.md 2>/dev/null
-rm -rf $OUT/demo; mkdir -p $OUT/demo; (cd $DEMO && tar cf - --exclude target --exclude Cargo.lock . ) | tar xf - -C $OUT/demo
+rm -rf $OUT/demo; mkdir -p $OUT/demo
+if [ -d $DEMO ]; then (cd $DEMO && tar cf - --exclude target --exclude Cargo.lock . ) | tar xf - -C $OUT/demo; else cp $SO/demo.diff $SO/*.rs $OUT/demo/ 2>/dev/null; echo "git apply demo.diff; cargo test --offline $DEMOARGS" > $OUT/demo/COMMAND; fi
 echo "== check against /repo with the patch"
 cd /verif
 PATCH=$SO/patch.diff; if [ -f $SO/patch_adapted.diff ]; then PATCH=$SO/patch_adapted.diff; cp $PATCH $OUT/patch_adapted.diff; fi
